@@ -239,6 +239,7 @@ func C01(r *core.Run) {
 	rule105(r)
 	rule0111(r)
 	rule0112(r, "C01")
+	rule0113(r)
 }
 
 func rule011(r *core.Run) {
@@ -1323,7 +1324,12 @@ func rule0112(r *core.Run, prop string) {
 							}
 						}
 						if strings.HasSuffix(r.P.CalleeName(y), "http.ResponseWriter.WriteHeader") {
-							uses[x] = true
+							// the handler answers the failure itself: only an error status counts
+							if as := y.Common().Args; len(as) > 0 {
+								if st, ok := core.ConstInt(as[len(as)-1]); ok && st >= 400 {
+									uses[x] = true
+								}
+							}
 						}
 					case *ssa.Store:
 						if derived[y.Val] {
@@ -1364,10 +1370,8 @@ func rule0112(r *core.Run, prop string) {
 					if !returnsErr || verdictCalls[name] || probeCalls[name] {
 						continue
 					}
-					ev := fnRet[ret]
-					if ev == nil || !definitelyNil(r, core.BlockLocalLoad(ev)) {
-						continue
-					}
+					// (2) counts every return that is not itself a failure report: nil, or whatever a later
+					// step returns
 					for t := range tests {
 						iff := t.(*ssa.If)
 						nonNil := -1
@@ -1388,11 +1392,52 @@ func rule0112(r *core.Run, prop string) {
 							continue
 						}
 						first := start.Instrs[0]
-						avoid := func(x ssa.Instruction) bool { return x != t && (tests[x] || uses[x]) }
+						// further tests: a comparison with a specific error value or a predicate of the error
+						// handles it only on the side where the error was recognised; other tests (type
+						// assertions, composite conditions) count on both sides
+						blockedEdges := map[core.Edge]bool{}
+						opaque := map[ssa.Instruction]bool{}
+						for t2 := range tests {
+							if t2 == t {
+								continue
+							}
+							if2 := t2.(*ssa.If)
+							if side, ok := recognisedSide(r, if2.Cond, derived); ok && len(if2.Block().Succs) == 2 {
+								blockedEdges[core.Edge{From: if2.Block().Index, To: if2.Block().Succs[side].Index}] = true
+							} else {
+								opaque[t2] = true
+							}
+						}
+						avoid := func(x ssa.Instruction) bool { return opaque[x] || uses[x] }
 						if avoid(first) {
 							continue
 						}
-						if first == ssa.Instruction(ret) || core.ReachesAvoiding(first, ret, avoid) {
+						if blockedEdges[core.Edge{From: iff.Block().Index, To: start.Index}] {
+							continue
+						}
+						// where the returned error is merged at the return (single exit), only the incoming
+						// edges that do not carry an evident failure count
+						targets := []ssa.Instruction{ret}
+						if ph, ok := core.BlockLocalLoad(fnRet[ret]).(*ssa.Phi); ok && fnRet[ret] != nil && ph.Block() == ret.Block() {
+							targets = nil
+							for i, e := range ph.Edges {
+								if i >= len(ph.Block().Preds) {
+									continue
+								}
+								pb := ph.Block().Preds[i]
+								if core.NilnessAt(e, pb) == core.NonNil || involves(e) || len(pb.Instrs) == 0 {
+									continue
+								}
+								targets = append(targets, pb.Instrs[len(pb.Instrs)-1])
+							}
+						}
+						reached := false
+						for _, tg := range targets {
+							if first == tg || core.ReachesAvoidingEdges(first, tg, avoid, blockedEdges) {
+								reached = true
+							}
+						}
+						if reached {
 							// the non-nil side must not be the nil side as well (a test whose arms rejoin at once is caught here too)
 							bad = "was found non-nil at " + pos(r, iff) + " and the function still returns success at " + pos(r, ret)
 						}
@@ -1404,6 +1449,44 @@ func rule0112(r *core.Run, prop string) {
 	}
 	r.Floor("R01.12", 150, "calls returning an error in the product packages")
 	_ = prop
+}
+
+// recognisedSide: for a condition that compares the error with a specific
+// value (err == X / err != X, X not nil) or applies a predicate to it
+// (os.IsNotExist(err), errors.Is(err, X)), possibly negated, the index of the
+// successor taken when the error WAS recognised (0: then, 1: else).
+func recognisedSide(r *core.Run, cond ssa.Value, derived map[ssa.Value]bool) (int, bool) {
+	cd := core.CondOf(cond)
+	side := 0
+	flip := func() { side = 1 - side }
+	if cd.Neg {
+		flip()
+	}
+	switch {
+	case cd.Op == token.EQL || cd.Op == token.NEQ:
+		x, y := cd.X, cd.Y
+		if !derived[x] {
+			x, y = y, x
+		}
+		if !derived[x] || core.IsNilConst(y) {
+			return 0, false
+		}
+		if cd.Op == token.NEQ {
+			flip()
+		}
+		return side, true
+	case cd.Op == 0 || cd.Op == token.ILLEGAL:
+		c, ok := cd.X.(*ssa.Call)
+		if !ok {
+			return 0, false
+		}
+		for _, a := range c.Call.Args {
+			if derived[a] {
+				return side, true
+			}
+		}
+	}
+	return 0, false
 }
 
 // verdictCalls are pure validators: their error is a verdict ("not a valid
@@ -1428,4 +1511,46 @@ func packsAny(v ssa.Value, set map[ssa.Value]bool) bool {
 		}
 	}
 	return false
+}
+
+// rule0113 — an error is handed back where it can be non-nil, not where it is nil.
+func rule0113(r *core.Run) {
+	r.Rule("R01.13", "no return hands back, as its error result, the error of a call on a path where a guard has just established that this error is nil (`if err == nil { return err }`): the test is inverted — the failure case falls through as success and the success case returns early with the rest of the operation not done")
+	n := 0
+	for _, pk := range []string{"gofakes3", "s3mem", "s3bolt", "s3afero", "goskipiter", "s3io"} {
+		for _, fn := range r.P.FuncsOfPkg(pk) {
+			f := fn
+			re := returnedErrors(f)
+			for ri, ret := range core.Returns(f) {
+				ev := re[ret]
+				if ev == nil {
+					continue
+				}
+				v := core.BlockLocalLoad(ev)
+				// only values that are (aliases of) a call's error result
+				var src *ssa.Call
+				switch x := v.(type) {
+				case *ssa.Extract:
+					src, _ = x.Tuple.(*ssa.Call)
+				case *ssa.Call:
+					src = x
+				}
+				if src == nil {
+					continue
+				}
+				n++
+				bad := ""
+				for _, g := range core.GuardsOf(ret) {
+					for a := range core.ValueAliases(v) {
+						if isNil, ok := core.ErrNilFact(g, a); ok && isNil && core.Dominates(src, g.If) {
+							bad = pos(r, g.If)
+						}
+					}
+				}
+				r.Check(bad == "", "R01.13", key(fname(r, f), "error returned where it can be non-nil", sprintf("%s ret%d", r.P.CalleeName(src), ri)), pos(r, ret), "not on the nil side of its own test",
+					"the error of "+r.P.CalleeName(src)+" is returned on the side of the test at "+bad+" where it is nil: the test is inverted, failures fall through as success")
+			}
+		}
+	}
+	r.Floor("R01.13", 60, "returns handing back a call's error")
 }
